@@ -236,7 +236,30 @@ let refl_of (evs : msg_c wevent list) : string =
   | [] -> "none"
   | l -> String.concat "+" (List.sort_uniq compare l)
 
+(* ---------- dial_options.authority: the :authority the servers see ---------- *)
+let bytes_of_ascii (s : string) : n list = List.init (String.length s) (fun i -> n_of_int (Char.code s.[i]))
+let addr_target = bytes_of_ascii "target" and addr_side = bytes_of_ascii "side"
+
+let expected_auth (c : string) (obs_rest : string) : string =
+  let f = split_blank c in
+  let configured = List.fold_left (fun acc o ->
+    if String.length o >= 3 && String.sub o 0 3 = "au=" then bytes_of_field (String.sub o 3 (String.length o - 3)) else acc) [] f in
+  let mode_field = (match f with "json" :: m :: _ -> m | "scen" :: ni :: _ -> ni | _ -> "") in
+  let refl_side = String.length mode_field > 0 && mode_field.[String.length mode_field - 1] = 'r' in
+  let any_call = String.contains obs_rest '/' in
+  let l = run_authorities configured addr_target (if refl_side then addr_side else addr_target) any_call in
+  let show a = if a = addr_target then "target" else if a = addr_side then "side" else hex_of_bytes a in
+  String.concat "+" (List.sort_uniq compare (List.map show l))
+
 let rec predict (c : string) (obs : string) : string * string * bool =
+  let (obs_a, auth_obs) = strip_last "auth=" obs in
+  if auth_obs <> None then begin
+    let (p, v, _) = predict c obs_a in
+    let want = expected_auth c obs_a in
+    let got = (match auth_obs with Some a -> a | None -> "") in
+    (p ^ " auth=" ^ want,
+     (if v <> "ok" then v else if got = want then "ok" else "BAD:" ^ List.hd (split_blank c) ^ ":authority"), true)
+  end else
   let (obs0, sidecar) = strip_last "sidecar=" obs in
   if sidecar <> None then begin
     (* the specification: every call is received by the TARGET; judge the rest of the line as usual,
